@@ -13,4 +13,5 @@ INVARIANT DivRefines
 INVARIANT QuantizeRefines
 INVARIANT RatioRefines
 INVARIANT UnaryRefines
+INVARIANT IntoIntRefines
 CHECK_DEADLOCK FALSE
